@@ -1,14 +1,14 @@
 """C19 — stopping conditions stop training exactly when specified, for any loss history."""
 INFO = {
     "explanation": "CrossHair executes the real TrainLoss.stop / ValLoss.stop / EpochStop.stop symbolically: (H) bounded histories - a symbolic "
-                   "List[float] of length <=4, symbolic patience and min_delta - against a reference state machine written from the statement "
+                   "List[float] of length <=3 (quick) / 5 (thorough), symbolic patience and min_delta - against a reference state machine written from the statement "
                    "(first stopping epoch, never earlier, best_model = model of the best epoch / last model); (I) one inductive step from an "
                    "arbitrary state (best, epochs_since_best), which covers histories of any length.  Losses are fed as float and wrapped in a "
                    "scalar class that, like np.float32 / 0-d jax arrays (what ml.train supplies), is not an instance of float.  Counterexamples "
                    "are replayed on the freshly imported real classes with genuine float / np.float32 / jax scalars.",
     "functions": ["TrainLoss.__init__", "TrainLoss.stop", "ValLoss.__init__", "ValLoss.stop", "EpochStop.stop", "StopCondition.__init__"],
     "bounds": {"quick": "histories of length <=3, patience 0..3 (0..5 for the inductive step, which covers any length), 0<=min_delta<=8, losses in [0,100]; "
-                        "EpochStop epochs<=12", "thorough": "histories of length <=4"},
+                        "EpochStop epochs<=12", "thorough": "histories of length <=5"},
     "outside": ["verbose logging (log_status formatting)", "the body of ml.train other than its call protocol (first call with None losses, then one call per epoch)"],
     "assumptions": ["non-float scalars modelled by a wrapper class + module-level float() stub returning the wrapped value "
                     "(validated by concrete differential runs with genuine np.float32 / jax scalars on every run)"],
